@@ -24,6 +24,8 @@ func init() {
 		Run:       runC06,
 		Imports: []Import{
 			{From: "C14.d", As: "C06.f", Why: "(effect inventory: every removal of header data outside the per-height deletion step is a violation `removal-outside-step`) an appended header that was not flushed yet exists only in the pending batch: it may leave the batch only in the deletion step of its own height; a range-wide drop loses headers that were never deleted at the next Stop/Start"},
+			{From: "C17.c", Match: "write-loop-stops", As: "C06.c", Why: "everything whose Append returned before Stop is there after the restart: the write loop leaves its loop only on the stop signal, which Stop queues behind the appends, and handles that signal like a batch (it flushes what is pending)"},
+			{From: "C17.c", Match: "queued-batch-made-readable", As: "C06.c", Why: "see write-loop-stops"},
 			{From: "C08.b", Match: "tier-purged:pending", As: "C06.f", Why: "see removal-outside-step: the pending batch is purged per deleted height, by the step that deleted it"},
 		},
 	})
@@ -47,6 +49,7 @@ func runC06(c *an.Ctx) {
 		return
 	}
 	checkDeleteCrashOrder(c, "C06.e")
+	checkPointerMemoryBeforeDisk(c, "C06.g")
 
 	// --- C06.a one atomic batch per flush
 	{
@@ -212,6 +215,26 @@ func runC06(c *an.Ctx) {
 		okAll = strings.Contains(v, "batch[H]).GetAll")
 	}
 	c.Check(okAll, "C06.b", "flushes-all-pending", "a flush writes every header of the pending batch", closure, fc, "arg "+ct.Of(fc.Call.Args[2]), nil)
+	// flush writes the head and tail pointer keys from the in-memory pointers and dereferences them
+	// without a test: they are (re)initialised from the very batch that is about to be written, in this
+	// step, before every attempt — a whole-store deletion (wipe → deinit) may have dropped them while
+	// these headers were pending (finding F15)
+	{
+		ensure := p.Method("store", "Store", "ensureInit")
+		okInit := false
+		if ensure != nil {
+			okInit = (an.Flow{Fn: closure}).MustPrecede(func(in ssa.Instruction) bool {
+				call, isCall := in.(*ssa.Call)
+				return isCall && an.StaticCallee(&call.Call) == ensure && len(call.Call.Args) >= 2 && call.Call.Args[len(call.Call.Args)-1] == fc.Call.Args[2]
+			}, fc)
+		}
+		for _, cs := range p.CG().In[flush] {
+			if cs.Caller != closure {
+				okInit = false // another caller would reach the dereference without this step
+			}
+		}
+		c.Check(okInit, "C06.b", "pointers-initialised-before-flush", "the step (re)initialises the head and tail pointers from the batch it is about to write before it flushes it (flush dereferences both)", closure, fc, "", nil)
+	}
 	// no exit from the retry loop under a failed flush
 	prFail := cf.Prune(an.NE(fErr, "nil"))
 	for _, r := range prFail.Returns() {
